@@ -18,7 +18,8 @@ let do_rev id (f : string array) =
   let gd = f.(3) and outd = f.(4) and out2d = f.(5) in
   let g = parse_dump gd and out = parse_dump outd in
   note_case ("REV " ^ gd) (nontrivial_geom g);
-  count ("rev_" ^ f.(2));
+  count ("rev_" ^ (List.hd (String.split_on_char '/' f.(2))));
+  count ("api" ^ (String.concat "_" (List.tl (String.split_on_char '/' f.(2)))));
   let m = dump_geom (rev_geom g) in
   if m <> outd then fail id "CORR" "reverse_model" (trunc ("model=" ^ m ^ " impl=" ^ outd));
   if out2d <> gd then fail id "SPEC" "reverse_involution" (trunc ("in=" ^ gd ^ " twice=" ^ out2d));
@@ -54,7 +55,7 @@ let do_force id (f : string array) =
   let gd = f.(3) and cwd = f.(4) and ccwd = f.(5) in
   let g = parse_dump gd and cw = parse_dump cwd and ccw = parse_dump ccwd in
   note_case ("FORCE " ^ gd) (nontrivial_geom g);
-  count ("force_" ^ f.(2));
+  count ("force_" ^ (List.hd (String.split_on_char '/' f.(2))));
   let flag i = f.(i) = "1" in
   match force_judge g cw ccw with
   | None -> fail id "CORR" "force_not_finite" (trunc gd)
@@ -150,7 +151,7 @@ let do_even id (f : string array) =
   let ld = f.(3) and n = int_of_string f.(4) and outd = f.(5) in
   let l = parse_dump ld in
   note_case ("EVEN " ^ f.(4) ^ " " ^ ld) (nontrivial_geom l && n > 0);
-  count "even";
+  count ("even_" ^ f.(2));
   let d = trunc ("n=" ^ f.(4) ^ " line=" ^ ld ^ " out=" ^ outd) in
   if outd = "PANIC" then fail id "SPEC" "even_panic" d
   else match even_judge l (z_of_int n) (parse_dump outd) with
